@@ -174,6 +174,8 @@ def check_case(case, sess: Session):
     seq = run_driver(case, False, sess)
     sess.evaluations += 1
     sess.count("batches_run")
+    sess.sample({"agents": case["agents"], "graphs": case["graphs"], "staging_limit": case["limit"], "workers": case["workers"], "turn_id": case["turn_id"],
+                 "records_per_agent": {a: len(s_["logs"]) for a, s_ in case["specs"].items()}, "computed": par_.get("computed"), "flushes": par_.get("flushes")})
     if seq["exc"]:
         sess.inconclusive_because("sequential reference raised: " + seq["exc"][:150])
         return
